@@ -1,5 +1,6 @@
 import FeatModel.Model.Proto
 import FeatModel.Model.Solver.Krylov
+import FeatModel.Model.Solver.Precond
 /-
 The concrete instance the driver executes: vectors `Vector Rat n`, a dense matrix (the harness stores the same entries
 in a `SparseMatrixCSR<Q>`; explicit zeros do not matter in exact arithmetic), `NoneFilter`/`UnitFilter` as a Boolean
@@ -64,7 +65,8 @@ def transposeM {n : Nat} (A : RMat n) : RMat n := Vector.ofFn fun i => Vector.of
 
 def ratSys {n : Nat} (A : RMat n) (mask : Vector Bool n) (pre : Option (RMat n × Nat)) : Sys (RVec n) Rat :=
   { ops := ratOps n, A := matVec A, Fd := maskF mask, prec := precOf mask pre, nrm := vnorm,
-    At := matVec (transposeM A) }
+    At := matVec (transposeM A), v3 := Vector.ofFn fun _ => 3,
+    chebTol := mkRat 7378697629483821 73786976294838206464 }
 
 /-- `Math::sqr(Math::eps<Q>())` of harness/common/exact_q.hpp -/
 def epsSqQ : Rat := mkRat 1 (2 ^ 104)
@@ -72,5 +74,34 @@ def epsSqQ : Rat := mkRat 1 (2 ^ 104)
 /-- the convergence-control members as initialised by the `IterativeSolver` constructor -/
 def freshState : State Rat :=
   { defInit := 0, defCur := 0, defPrev := 0, numIter := 0, numStag := 0, curFin := true }
+
+/-! ### FEAT's own preconditioners (models of property C08, imported read-only) inside the solvers -/
+
+inductive FeatPre where
+  | jac | sor | ssor
+  deriving DecidableEq, Repr
+
+/-- the `SparseMatrixCSR` the harness builds from the dense input: explicit zeros are not stored, columns ascending -/
+def toCsr {n : Nat} (A : RMat n) : FeatModel.LA.Csr Rat :=
+  let rows : List (List (Nat × Rat)) :=
+    A.toList.map fun r => ((List.range n).zip r.toList).filter (fun p => p.2 != 0)
+  let ptr := rows.foldl (fun acc r => acc ++ [acc.getLastD 0 + r.length]) [0]
+  { rows := n, cols := n, rowPtr := ptr.toArray, colInd := (rows.flatMap (·.map (·.1))).toArray,
+    val := (rows.flatMap (·.map (·.2))).toArray }
+
+/-- `JacobiPrecond` / `SORPrecond` / `SSORPrecond::apply` with damping `w` and the system filter -/
+def featPrecApply {n : Nat} (k : FeatPre) (w : Rat) (A : RMat n) (mask : Vector Bool n) (v : RVec n) : RVec n :=
+  let fidx := (List.range n).filter fun i => mask.toList.getD i false
+  let csr := toCsr A
+  let out : Array Rat :=
+    match k with
+    | .jac => jacobiApply fidx n (invDiag w csr) v.toArray
+    | .sor => sorApply w fidx csr v.toArray
+    | .ssor => ssorApply w fidx csr v.toArray
+  Vector.ofFn fun i => out.getD i.val 0
+
+/-- the system with one of FEAT's preconditioners (it never reports failure) -/
+def ratSysF {n : Nat} (A : RMat n) (mask : Vector Bool n) (k : FeatPre) (w : Rat) : Sys (RVec n) Rat :=
+  { ratSys A mask none with prec := fun _ v => some (featPrecApply k w A mask v) }
 
 end FeatModel.Solver
